@@ -6,7 +6,7 @@ open VirVerif.Heap
 /-! Driver ops for C19 (heap model).
 
   obj   := <mutable 0|1> <k> <field>*k          field := i<nat> | r<objid>
-  heapstep N obj*N  R root*R  <opkind> <target> <nargs> arg*  W (id obj)*W  A obj*A
+  heapstep N obj*N  R root*R  <opkind> <target> <nargs> arg* <ndescs> desc*  W (id obj)*W  A obj*A
   getterpair N0 obj*N0  A1 obj*A1 r1  A2 obj*A2 r2
   condfit <copy 0|1> N obj*N t P (k field*k)*P
 -/
@@ -66,7 +66,10 @@ def pOp : P19 Op := fun ts =>
     | some (tgt, r1) =>
       match pCounted pNat r1 with
       | none => none
-      | some (args, r2) =>
+      | some (args, r1') =>
+       match pCounted pNat r1' with
+       | none => none
+       | some (descs, r2) =>
         let op : Option Op := match kind with
           | "eval" => some (.eval tgt args)
           | "contour" => some (.contour tgt args)
@@ -75,7 +78,7 @@ def pOp : P19 Op := fun ts =>
           | "save" => some (.save tgt args)
           | "deepcopy" => some (.deepcopy tgt)
           | "getter" => some (.getter tgt)
-          | "fit" => some (.fit tgt args)
+          | "fit" => some (.fit tgt descs args)
           | _ => none
         op.map (·, r2)
   | [] => none
@@ -102,9 +105,9 @@ def heapStep (toks : List String) : Option String := do
   let e : Effect := ⟨writes, allocs⟩
   let written := writes.map (·.1)
   let targets : List Nat := match op with
-    | .fit m _ => [m]
+    | .fit m ds _ => m :: ds
     | _ => []
-  let cert := (roots ++ targets).all (certRoot s)
+  let cert := (roots ++ targets).all (certRoot s) && closedB s targets (reachList s targets)
   let wf := wfB s && liveB s (roots ++ targets)
   let adm := admissibleB s op written
   let off := offenders s op written
@@ -112,10 +115,10 @@ def heapStep (toks : List String) : Option String := do
   let base := s!"OK cert={tokOfB cert} wf={tokOfB wf} adm={tokOfB adm} effwf={tokOfB (effWFB s e)} " ++
     s!"off={natsOut off} touched={if roots.isEmpty then "-" else touched} fp={(footprintList s op).length}"
   match op with
-  | .fit m _ =>
-    let smut := roots.map fun r => (sharedMut s m r).length
-    let sany := roots.map fun r => (sharedAny s m r).length
-    some (base ++ s!" nocap={tokOfB (noCaptureB s m e)} smut={natsOut smut} sany={natsOut sany}")
+  | .fit m ds _ =>
+    let smut := roots.map fun r => (sharedMut s (m :: ds) r).length
+    let sany := roots.map fun r => (sharedAny s (m :: ds) r).length
+    some (base ++ s!" nocap={tokOfB (noCaptureB s (m :: ds) e)} smut={natsOut smut} sany={natsOut sany}")
   | _ => some base
 
 def getterPair (toks : List String) : Option String := do
@@ -131,7 +134,7 @@ def getterPair (toks : List String) : Option String := do
   let s2 := s1.apply e2
   let cert := certRoot s1 root1 && certRoot s2 root1 && certRoot s2 root2
   let wf := wfB s && effWFB s e1 && effWFB s1 e2 && decide (root1 < s1.next) && decide (root2 < s2.next)
-  let shared := sharedMut s2 root1 root2
+  let shared := sharedMut s2 [root1] root2
   some (s!"OK cert={tokOfB cert} wf={tokOfB wf} fresh1={tokOfB (freshResultB s e1 root1)} " ++
     s!"fresh2={tokOfB (freshResultB s1 e2 root2)} shared={natsOut shared} " ++
     s!"n1={(reachList s2 [root1]).length} n2={(reachList s2 [root2]).length}")
